@@ -667,6 +667,19 @@ func init() {
 				if k == 20 {
 					c08GCMaps(c, 2000)
 				}
+				if k == 21 {
+					// containers whose elements are pointers to containers: every interpreter and
+					// entry point (a wrong pointer depth reads a length from the wrong word)
+					for i, x := range c01ElemKindContainers() {
+						if !c.Cur(3000+i, fmt.Sprintf("shapes=core\ncontainers of pointers to containers: %T", x)) {
+							continue
+						}
+						heap0 := heapInUse()
+						c08Run(c, 3000+i, x, reflect.TypeOf(x), "", interps, false)
+						heapGuard(c, 3000+i, heap0, "enc-safety", "Marshal*", "")
+						c.NonTrivial("elemkind", fmt.Sprintf("%T", x))
+					}
+				}
 				c.Sample(map[string]any{"family": "GC/stack-growth callbacks", "values": 12, "stack_resident_entry_points": len(stackEntries)})
 			}
 		},
